@@ -29,9 +29,12 @@ FEATS = ["N", "P"]
 DOM = ["u", "v"]
 
 
-def rand_feature_grammar(rng):
+def rand_feature_grammar(rng, force=None):
     """Flat agreement grammar: symbols carry at most the features N and P with a value or a variable."""
-    base = cfglib.rand_cfg(rng, profile=rng.choice(["plain", "recursive", "cnf", "plain", "eps"]), max_vars=3, max_prods=5, max_body=3)
+    if force:
+        base = cfglib.rand_cfg(rng, profile="plain", max_vars=2, max_prods=2, max_body=2)
+    else:
+        base = cfglib.rand_cfg(rng, profile=rng.choice(["plain", "recursive", "cnf", "plain", "eps"]), max_vars=3, max_prods=5, max_body=3)
     prods = []
     for h, b in base["prods"]:
         pvars = ["x", "y"]
@@ -50,7 +53,7 @@ def rand_feature_grammar(rng):
             prods.append({"head": h, "hfs": ann(), "body": [[k, v, (ann() if k == "V" else {})] for k, v in b]})
     profile = "feat:" + base["profile"]
     vs = list(base["vars"])
-    if rng.random() < 0.35:
+    if rng.random() < 0.35 or force == "specific/general":
         # a constituent with a specific and an under-specified analysis over the same span, passed up through a variable
         t = rng.choice(base["terms"])
         f = rng.choice(FEATS)
@@ -58,7 +61,7 @@ def rand_feature_grammar(rng):
         for v in ("P", "Q"):
             if v not in vs:
                 vs.append(v)
-        nested = rng.random() < 0.7
+        nested = rng.random() < 0.7 or bool(force)
         mid = rng.random() < 0.5
         extra = [{"head": "P", "hfs": {f: "?x"}, "body": [["V", "Q", {f: "?x"}]], "nested": nested},
                  {"head": "Q", "hfs": {f: val}, "body": [["T", t, {}]], "nested": nested},
@@ -170,7 +173,8 @@ def generate(ctx):
             g = cfglib.rand_cfg(rng, profile=rng.choice(["plain", "eps", "recursive", "unit", "cnf"]), max_vars=3, max_prods=6, max_body=3)
             cases.append({"op": "plain_fcfg", "g": g, "words": cfglib.words_upto(g["terms"], 3 if len(g["terms"]) < 3 else 2) + cfglib.sample_words(g, rng, n=5, maxlen=5)})
         elif k == 1:
-            fg = rand_feature_grammar(rng)
+            # every third feature grammar carries the specific / under-specified ambiguity over one span (nested values), in a random rule order
+            fg = rand_feature_grammar(rng, force="specific/general" if i % 12 == 1 else None)
             cases.append({"op": "feature_fcfg", "g": fg, "fg": fg, "words": cfglib.words_upto(fg["terms"], 3 if len(fg["terms"]) < 3 else 2)})
         else:
             a, b = rand_fs(rng), rand_fs(rng)
